@@ -113,3 +113,69 @@ Module C09Examples.
   Example ex_dispatch_premise : exists pre post, mro ct0 (lit "C") = pre ++ lit "B" :: post /\ forall y, In y pre -> has_method ms1 y = false.
   Proof. exists [lit "C"], [astnode]. split; [reflexivity|]. intros y [<-|[]]. reflexivity. Qed.
 End C09Examples.
+
+(* non-vacuity witnesses *)
+(* the instance (Proofs/C09Witness.v): class table ct0 (B, C a subclass of B, P with an optional and a tuple child), the
+   three-level tree w9_tree = P1(one = P2(one = None, many = (B6, C7)), many = (B3, C4, B5)), the rule sets
+   w9_ms = {visit_B: remove; visit_C: a copy of a template}, w9_msB = {visit_B: remove}, w9_msK = {visit_Q: remove;
+   visit_C: return the node}; s0 = allocation counter 100, empty log *)
+From Oak Require Import Proofs.C09Witness.
+Import VisitorExamples.
+(* C09_dispatch (every side of its iffs), C09_dispatch_own *)
+Theorem C09_ex_dispatch :
+  dispatch ct0 true (has_method w9_msB) (lit "B") = Some (lit "B")
+  /\ dispatch ct0 true (has_method w9_msB) (lit "C") = None /\ has_method w9_msB (lit "C") = false
+  /\ dispatch ct0 false (has_method w9_msB) (lit "C") = Some (lit "B")
+  /\ (mro ct0 (lit "C") = [lit "C"] ++ lit "B" :: [astnode] /\ has_method w9_msB (lit "B") = true
+      /\ forall y, In y [lit "C"] -> has_method w9_msB y = false)
+  /\ dispatch ct0 false (has_method w9_msB) (lit "P") = None
+  /\ (forall y, In y (mro ct0 (lit "P")) -> has_method w9_msB y = false)
+  /\ has_method w9_ms (lit "C") = true /\ dispatch ct0 false (has_method w9_ms) (lit "C") = Some (lit "C").
+Proof. exact w9_dispatch. Qed.
+(* C09_transform_total *)
+Theorem C09_ex_total : wf_tree ct0 w9_tree = true /\ depth w9_tree = 3 /\ length (subterms w9_tree) = 7
+  /\ transform ct0 true w9_ms w9_tree s0 = Some (w9_s', RNode w9_res).
+Proof. exact w9_total. Qed.
+(* C09_visit_dispatches, C09_transform_content: a returning visit with its log; the rewrite is a node *)
+Theorem C09_ex_content :
+  wf_tree ct0 w9_tree = true /\ coherent (universe w9_ms w9_tree) /\ below (next s0) (universe w9_ms w9_tree)
+  /\ visit ct0 true w9_ms 3 w9_tree s0 = Some (w9_s', RNode w9_res)
+  /\ length (universe w9_ms w9_tree) = 8
+  /\ rev (calls w9_s') = (1, None) :: (2, None) :: (6, Some (lit "B")) :: (7, Some (lit "C")) :: (3, Some (lit "B"))
+                         :: (4, Some (lit "C")) :: [(5, Some (lit "B"))]
+  /\ rewrite ct0 true w9_ms w9_tree = SNode (strip w9_res)
+  /\ map addr (subterms w9_res) = [103; 101; 100; 102].
+Proof. exact w9_content. Qed.
+(* C09_input_frame: a result made of old objects (the C nodes 7 and 4) and new ones (100, 101) *)
+Theorem C09_ex_frame :
+  wf_tree ct0 w9_tree = true
+  /\ (exists s', visit ct0 true w9_msB 3 w9_tree s0 = Some (s', RNode w9_resB) /\ next s' = 102)
+  /\ coherent (universe w9_msB w9_tree) /\ below (next s0) (universe w9_msB w9_tree)
+  /\ In (leaf 7 "C" 8) (subterms w9_resB) /\ In (leaf 7 "C" 8) (universe w9_msB w9_tree)
+  /\ map addr (subterms w9_resB) = [101; 100; 7; 4].
+Proof. exact w9_frame. Qed.
+(* C09_identity_unchanged: methods are called (visit_C on 7 and 4) and nothing changes *)
+Theorem C09_ex_unchanged :
+  wf_tree ct0 w9_tree = true /\ changed ct0 true w9_msK w9_tree = false
+  /\ (exists s', visit ct0 true w9_msK 5 w9_tree s0 = Some (s', RNode w9_tree) /\ next s' = next s0
+                 /\ In (4, Some (lit "C")) (calls s') /\ In (7, Some (lit "C")) (calls s'))
+  /\ coherent (universe w9_msK w9_tree) /\ below (next s0) (universe w9_msK w9_tree).
+Proof. exact w9_unchanged. Qed.
+(* C09_ancestors_fresh (both parts), C09_removal_order *)
+Theorem C09_ex_fresh :
+  wf_tree ct0 w9_tree = true /\ below (next s0) (universe w9_ms w9_tree) /\ changed ct0 true w9_ms w9_tree = true
+  /\ visit ct0 true w9_ms 3 w9_tree s0 = Some (w9_s', RNode w9_res)
+  /\ generic_like ct0 true w9_ms (cls w9_tree) = true
+  /\ not_same w9_tree (RNode w9_res) = true /\ next s0 <= addr w9_res < next w9_s'
+  /\ changed ct0 true w9_ms (leaf 4 "C" 2) = true /\ generic_like ct0 true w9_ms (lit "C") = false
+  /\ changed ct0 false w9_msB w9_inner = true /\ generic_like ct0 false w9_msB (cls w9_inner) = true.
+Proof. exact w9_fresh. Qed.
+(* C09_removal_order in non-strict mode: visit_B reaches the C nodes through the MRO; emptied tuples stay tuples *)
+Theorem C09_ex_nonstrict :
+  wf_tree ct0 w9_tree = true /\ generic_like ct0 false w9_msB (cls w9_tree) = true
+  /\ exists s', visit ct0 false w9_msB 3 w9_tree s0
+       = Some (s', RNode (Node 101 (lit "P") ONo []
+                           [(lit "one", (ShOne, [Node 100 (lit "P") ONo [] [(lit "one", (ShNone, [])); (lit "many", (ShMany, []))]]));
+                            (lit "many", (ShMany, []))]))
+     /\ In (7, Some (lit "B")) (calls s').
+Proof. exact w9_nonstrict. Qed.
